@@ -206,6 +206,7 @@ type engine struct {
 	nproc   map[int]int
 	// number of processes of an instance seen in StateShutdown while the instance is running
 	deadProcs map[int]int
+	stopEarly bool // Stop returned while a process of the instance had not reached StateShutdown
 }
 
 func (e *engine) attempt(code int, runID string) int {
@@ -456,7 +457,7 @@ func (e *engine) crash(inst int) {
 				}
 			}
 			s.mu.Unlock()
-			delete(s.dead, inst)
+			s.dead.del(inst)
 			e.start(inst)
 			return
 		case req := <-s.reqCh:
@@ -501,7 +502,7 @@ func (e *engine) stepProc(p *proc) {
 			}
 			d = s.decide(p, "AW")
 		case "RV":
-			if p.lease != nil && p.lease.live && !s.dead[p.inst] {
+			if p.lease != nil && p.lease.live && !s.dead.get(p.inst) {
 				rc := e.recvOf(p)
 				if _, ev := s.nextEvent(rc.topic, rc.name); ev == nil {
 					s.emit(p, "RV:=blk:")
@@ -510,7 +511,7 @@ func (e *engine) stepProc(p *proc) {
 			}
 			d = s.decide(p, "RV")
 		case "TW":
-			if s.dead[p.inst] || p.lease == nil || !p.lease.live {
+			if s.dead.get(p.inst) || p.lease == nil || !p.lease.live {
 				d = dCancel
 			} else if req.deadline > s.now {
 				s.emit(p, fmt.Sprintf("TW:%d=blk:", req.deadline))
@@ -525,7 +526,7 @@ func (e *engine) stepProc(p *proc) {
 		first = false
 		p.parked = nil
 		req.resume <- d
-		if s.dead[p.inst] {
+		if s.dead.get(p.inst) {
 			// the instance crashed at this call: unwind everything and restart it
 			e.crash(p.inst)
 			return
@@ -816,6 +817,9 @@ func runEngine(kind string, a []string) string {
 	if e.s.openReceivers.Load() != 0 || e.s.openSenders.Load() != 0 {
 		out = append(out, "API=-4")
 	}
+	if e.stopEarly {
+		out = append(out, "API=-5")
+	}
 	return strings.Join(out, " ")
 }
 
@@ -837,6 +841,12 @@ func (e *engine) shutdown(inst int) {
 	for {
 		select {
 		case <-done:
+			// C11: Stop returns only after every process has shut down
+			for _, st := range e.wfs[inst].States() {
+				if st != workflow.StateShutdown {
+					e.stopEarly = true
+				}
+			}
 			return
 		case req := <-s.reqCh:
 			req.resume <- dCancel
